@@ -39,6 +39,10 @@ pub struct Case {
     pub init: Vec<Step>,
     pub ops: Vec<Step>,
     pub mode: Mode,
+    /// scheduled mode: `procs[i]` = the process that runs operation i (non-decreasing; a process
+    /// runs its operations one after the other). Empty: one process per operation.
+    #[serde(default)]
+    pub procs: Vec<u8>,
 }
 
 pub struct C07;
@@ -187,9 +191,15 @@ struct Observed {
 }
 
 /// Is there a serial order of the operations that explains every result and the final state?
-fn serialisable(ctx: &Ctx, m0: &Model, ops: &[Step], obs: &Observed) -> Result<Vec<usize>, String> {
+/// `before`: pairs (x, y) — operation x had returned before operation y began (known in
+/// scheduled runs only), or x precedes y in the same process: x comes first in the serial order.
+fn serialisable(ctx: &Ctx, m0: &Model, ops: &[Step], obs: &Observed, before: &[(usize, usize)]) -> Result<Vec<usize>, String> {
     let mut reasons = Vec::new();
     'perm: for perm in permutations(ops.len()) {
+        let pos = |x: usize| perm.iter().position(|&p| p == x).unwrap();
+        if before.iter().any(|&(x, y)| pos(x) > pos(y)) {
+            continue 'perm;
+        }
         let mut m = m0.clone();
         m.pure = true;
         for &i in &perm {
@@ -206,6 +216,9 @@ fn serialisable(ctx: &Ctx, m0: &Model, ops: &[Step], obs: &Observed) -> Result<V
             }
         }
         return Ok(perm);
+    }
+    if reasons.is_empty() {
+        reasons.push(format!("no order is compatible with the real-time precedences {before:?}"));
     }
     Err(reasons.join(" || "))
 }
@@ -277,7 +290,7 @@ impl Engine for C07 {
          keys, addresses and bucket files. Scheduled mode: each operation runs in its own single-threaded sync driver process under one ptrace supervisor that holds every \
          process before every filesystem system call (reads and writes); the generated schedule (who starts, and a sorted list of preemption points) decides which held process \
          continues — all schedules with <= p preemptions are enumerated for the fixed operation sets, random schedules beyond. Stress mode: one thread per operation in-process, any \
-         flavour, started together (uncontrolled). Joined mode: the operations (async flavour) are futures joined in one task, interleaving on one thread wherever the library awaits. \
+         flavour, started together (uncontrolled). Processes may run two or three operations in a row (a process that looks twice while another one writes); in scheduled runs the serial order must also respect real time — an operation that had returned before another one began comes first. Joined mode: the operations (async flavour) are futures joined in one task, interleaving on one thread wherever the library awaits. \
          Aged schedules: at the preemption every file of the cache is back-dated by two days. Oracle: some permutation of the operations, replayed sequentially on the reference model from the initial state, yields every \
          observed result and the observed final state (lookups and reads of all keys, exists/read_hash of all addresses, listing); plus the splice detector: every bucket decodes to \
          valid records only and as many as inserts/removals succeeded. Non-trivial = >=1 preemption inside an operation (scheduled) / >=2 operations sharing a path (stress); \
@@ -312,7 +325,28 @@ impl Engine for C07 {
                 let mut ops: Vec<Op> = ops.clone();
                 let by = rep % ops.len();
                 ops.rotate_left(by);
-                out.push(Case { keys: keys.clone(), blobs: blobs.clone(), init: sync_steps(&init), ops: ops.into_iter().map(|op| Step { op, fl: Fl::Async }).collect(), mode: Mode::Joined });
+                out.push(Case { keys: keys.clone(), blobs: blobs.clone(), init: sync_steps(&init), ops: ops.into_iter().map(|op| Step { op, fl: Fl::Async }).collect(), mode: Mode::Joined, procs: vec![] });
+            }
+        }
+        // a process that looks twice (three times) while another process writes / removes: what
+        // the second look returns must account for everything that had returned before it began
+        for (init, ops, procs) in [
+            (vec![wr(Some(0), 2)], vec![Op::Meta { key: 0 }, Op::Meta { key: 0 }, wr(Some(0), 0)], vec![0u8, 0, 1]),
+            (vec![wr(Some(0), 2)], vec![Op::Read { key: 0 }, Op::Read { key: 0 }, Op::Remove { key: 0 }], vec![0, 0, 1]),
+            (vec![wr(Some(0), 2)], vec![Op::Meta { key: 0 }, Op::Read { key: 0 }, Op::Meta { key: 0 }, wr_stream(0, 1)], vec![0, 0, 0, 1]),
+            (vec![wr(Some(0), 0)], vec![Op::List, Op::List, wr(Some(1), 1)], vec![0, 0, 1]),
+            (vec![wr(Some(0), 0)], vec![Op::ReadHash { addr: a(0) }, Op::Exists { addr: a(0) }, Op::RemoveHash { addr: a(0) }], vec![0, 0, 1]),
+            (vec![], vec![Op::Meta { key: 0 }, Op::Meta { key: 0 }, wr(Some(0), 1)], vec![0, 0, 1]),
+            (vec![wr(Some(0), 2)], vec![wr(Some(0), 0), Op::Meta { key: 0 }, wr(Some(0), 1), Op::Meta { key: 0 }], vec![0, 0, 1, 1]),
+        ] {
+            let np = 2u8;
+            for first in 0..np {
+                for pos in 0..tier.pick(50u16, 90) {
+                    out.push(Case { keys: keys.clone(), blobs: blobs.clone(), init: sync_steps(&init), ops: sync_steps(&ops), mode: Mode::Scheduled { first, switches: vec![(pos, 0)], aged: false }, procs: procs.clone() });
+                    if pos % 3 == 0 {
+                        out.push(Case { keys: keys.clone(), blobs: blobs.clone(), init: sync_steps(&init), ops: sync_steps(&ops), mode: Mode::Scheduled { first, switches: vec![(pos, 0), (pos + 7, 0)], aged: false }, procs: procs.clone() });
+                    }
+                }
             }
         }
         for (init, ops) in sets {
@@ -323,11 +357,12 @@ impl Engine for C07 {
                 init: sync_steps(&init),
                 ops: sync_steps(&ops),
                 mode: Mode::Scheduled { first, switches, aged },
+                procs: vec![],
             };
             let mk = |first: u8, switches: Vec<(u16, u8)>| mk_aged(first, switches, false);
             // the same operations as futures of one task
             if init.len() < 100 {
-                out.push(Case { keys: keys.clone(), blobs: blobs.clone(), init: sync_steps(&init), ops: ops.iter().map(|o| Step { op: o.clone(), fl: Fl::Async }).collect(), mode: Mode::Joined });
+                out.push(Case { keys: keys.clone(), blobs: blobs.clone(), init: sync_steps(&init), ops: ops.iter().map(|o| Step { op: o.clone(), fl: Fl::Async }).collect(), mode: Mode::Joined, procs: vec![] });
             }
             for first in 0..n as u8 {
                 out.push(mk(first, vec![]));
@@ -388,6 +423,7 @@ impl Engine for C07 {
                     init: init.into_iter().filter(|o| matches!(o, Op::Write(_) | Op::Remove { .. } | Op::TmpElsewhere)).map(|op| Step { op, fl: Fl::Sync }).collect(),
                     ops: ops.into_iter().map(|(op, fl)| Step { op, fl: if scheduled { Fl::Sync } else if matches!(mode, Mode::Joined) { Fl::Async } else { fl } }).collect(),
                     mode,
+                    procs: vec![],
                 }
             })
             .boxed()
@@ -421,6 +457,7 @@ impl Engine for C07 {
             let mut outs: Vec<Option<(Out, u128, u128)>> = vec![None; n];
             let mut preempted_inside = false;
             let mut trace: Vec<String> = Vec::new();
+            let mut before: Vec<(usize, usize)> = Vec::new();
             match &c.mode {
                 Mode::Joined => {
                     for (i, r) in crate::exec::run_steps_joined(&ctx, &c.ops).into_iter().enumerate() {
@@ -432,12 +469,35 @@ impl Engine for C07 {
                     std::fs::write(&prog_file, serde_json::to_string(&prog).unwrap()).map_err(|e| format!("INFRA: {e}"))?;
                     let mut cmds = Vec::new();
                     let mut out_files = Vec::new();
-                    for i in 0..n {
-                        let of = env.scratch.root.join(format!("out_{i}.jsonl"));
+                    // process p runs the operations ranges[p].0 .. ranges[p].1
+                    let ranges: Vec<(usize, usize)> = if c.procs.len() == n {
+                        let mut v: Vec<(usize, usize)> = Vec::new();
+                        for i in 0..n {
+                            match v.last_mut() {
+                                Some(last) if i > 0 && c.procs[i] == c.procs[i - 1] => last.1 = i + 1,
+                                _ => v.push((i, i + 1)),
+                            }
+                        }
+                        v
+                    } else {
+                        (0..n).map(|i| (i, i + 1)).collect()
+                    };
+                    for (p, &(from, to)) in ranges.iter().enumerate() {
+                        let of = env.scratch.root.join(format!("out_{p}.jsonl"));
                         let _ = std::fs::remove_file(&of);
-                        cmds.push(driver_cmd(&env.scratch.cache, &env.scratch.scratch, &prog_file, i, i + 1, &of));
+                        cmds.push(driver_cmd(&env.scratch.cache, &env.scratch.scratch, &prog_file, from, to, &of));
                         out_files.push(of);
+                        for x in from..to {
+                            for y in x + 1..to {
+                                before.push((x, y));
+                            }
+                        }
                     }
+                    let n = ranges.len();
+                    let nops = c.ops.len();
+                    let mut op_begin: Vec<Option<u64>> = vec![None; nops];
+                    let mut op_end: Vec<Option<u64>> = vec![None; nops];
+                    let mut evseq: u64 = 0;
                     let mut sup = Sup::spawn(true, 120, &cmds, None).map_err(|e| format!("INFRA: cannot start ptsup: {e}"))?;
                     // held[cid] = Some(tid) when the subject waits at a gate
                     let mut held: Vec<Option<i64>> = vec![None; n];
@@ -446,7 +506,17 @@ impl Engine for C07 {
                     let mut current: Option<usize> = None;
                     let mut qpos: u16 = 0;
                     loop {
+                        evseq += 1;
                         match sup.next() {
+                            Ev::Marker { begin, n: opi, .. } => {
+                                if opi < nops {
+                                    if begin {
+                                        op_begin[opi].get_or_insert(evseq);
+                                    } else {
+                                        op_end[opi] = Some(evseq);
+                                    }
+                                }
+                            }
                             Ev::Gate(g) => {
                                 held[g.cid] = Some(g.tid);
                                 started[g.cid] = true;
@@ -492,10 +562,10 @@ impl Engine for C07 {
                                 alive[cid] = false;
                                 held[cid] = None;
                                 if status != "e0" {
-                                    return Err(format!("process of operation {cid} ({:?}) ended abnormally: {status}", c.ops[cid].op.name()));
+                                    return Err(format!("process {cid} (operations {:?}) ended abnormally: {status}", ranges.get(cid)));
                                 }
                             }
-                            Ev::Marker { .. } | Ev::Ret { .. } => {}
+                            Ev::Ret { .. } => {}
                             Ev::Done => break,
                             Ev::Fatal(m) => {
                                 if m.contains("timeout") {
@@ -506,10 +576,29 @@ impl Engine for C07 {
                         }
                     }
                     let _ = sup.finish();
-                    for i in 0..n {
-                        let o = read_outs(&out_files[i])?;
-                        let (_, out, t0, t1) = o.into_iter().next().ok_or_else(|| format!("operation {i} produced no result"))?;
-                        outs[i] = Some((out, t0, t1));
+                    for (p, &(from, to)) in ranges.iter().enumerate() {
+                        let o = read_outs(&out_files[p])?;
+                        if o.len() != to - from {
+                            return Err(format!("INFRA: process {p} produced {} results for {} operations", o.len(), to - from));
+                        }
+                        for (i, out, t0, t1) in o {
+                            if i < nops {
+                                outs[i] = Some((out, t0, t1));
+                            }
+                        }
+                    }
+                    // real time: x had returned before y began
+                    for x in 0..nops {
+                        for y in 0..nops {
+                            if let (Some(e), Some(b)) = (op_end[x], op_begin[y]) {
+                                if x != y && e < b && !before.contains(&(x, y)) {
+                                    before.push((x, y));
+                                }
+                            }
+                        }
+                    }
+                    if before.iter().any(|&(x, y)| ranges.iter().all(|&(f, t)| !(f <= x && x < t && f <= y && y < t))) {
+                        st.class("an_operation_began_after_another_process_s_had_returned");
                     }
                 }
                 Mode::Stress { .. } => {
@@ -562,7 +651,7 @@ impl Engine for C07 {
                     trace.join(" ")
                 )
             };
-            match serialisable(&ctx, &m0, &c.ops, &obs) {
+            match serialisable(&ctx, &m0, &c.ops, &obs, &before) {
                 Ok(_) => {}
                 Err(why) => return Err(format!("no serial order explains the outcome — {} — tried: {why}", describe())),
             }
